@@ -65,12 +65,13 @@ func (s *seams) hit(seam string) bool {
 		s.mu.Lock()
 		s.rng = s.rng*6364136223846793005 + 1442695040888963407
 		k := (s.rng >> 33) % 8
+		nap := time.Duration(50+(s.rng>>40)%400) * time.Microsecond
 		s.mu.Unlock()
 		switch {
 		case k < 3:
 			runtime.Gosched()
 		case k == 3:
-			time.Sleep(time.Duration(50+(s.rng>>40)%400) * time.Microsecond)
+			time.Sleep(nap)
 		}
 	}
 	s.mu.Lock()
